@@ -2,7 +2,7 @@
 import json, re
 FM = 'crates/oxidd-reorder/src/set_var_order/mod.rs'
 FS = 'crates/oxidd-reorder/src/set_var_order/segtree.rs'
-UNLISTED = {'concurrent_one_worker_n4'}
+UNLISTED = {'concurrent_one_worker_n4', 'bubble_sort_n5'}  # see REPORT.md
 hs = []
 
 
@@ -23,7 +23,7 @@ for m in re.finditer(r'harness(?:_one_worker)?!\((\w+),', src):
         extra = '' if int(M) >= 2 else ' (length not producible by the callers, accepted by sort_order)'
         add('verif_order', n, ['sort_order', 'MinSegTree::new', 'MinSegTree::add_split', 'MinSegTree::min_index'], FM,
             'num_levels fixed to N=%s, request length fixed to m=%s%s; all duplicate-free requests, all competing completions' % (N, M, extra),
-            **(TH if N == '5' else {}))
+            **(TH if N == '5' or int(M) < 2 else {}))
     elif n.startswith('bubble_sort'):
         N = n[13]
         dom = 'start sequences restricted to permutations of 0..N' if n.endswith('_perm') else 'all u32 start sequences'
@@ -39,7 +39,7 @@ for m in re.finditer(r'harness!\((\w+),', src):
     if n.startswith('api'):
         g = re.match(r'api_n(\d)(?:_s(\d))?', n)
         N, S = g.group(1), g.group(2) or '2'
-        th = g.group(2) == '2' or n in ('api_n6_s1', 'api_n7_s1')
+        th = g.group(2) == '2' or n in ('api_n6_s1', 'api_n7_s1', 'api_n8_s1')
         add('verif_segtree', n, ['MinSegTree::new', 'MinSegTree::add_split', 'MinSegTree::min_index'], FS,
             'n=%s elements; new + %s add_split step(s); |values|,|arguments| <= 2^24' % (N, S), **(TH if th else {}))
     elif n.startswith('step_add'):
@@ -47,17 +47,17 @@ for m in re.finditer(r'harness!\((\w+),', src):
         rng = 'all split points' if not g.group(2) else 'split point in %s..=%s (the three instances for this size cover 0..=8)' % (g.group(2), g.group(3))
         add('verif_segtree', n, ['MinSegTree::add_split'], FS,
             'n=%s elements; one step from any tree satisfying rep_inv; %s; |deltas|,|arguments| <= 2^24' % (g.group(1), rng),
-            **(TH if g.group(1) in '78' else {}))
+            **(TH if g.group(1) in '578' else {}))
     else:
         add('verif_segtree', n, ['MinSegTree::min_index'], FS, 'n=%s elements; any tree satisfying rep_inv; |deltas| <= 2^24' % n[-1],
-            **(TH if n[-1] in '78' else {}))
+            **(TH if n[-1] in '578' else {}))
 ST = dict(tier='selftest', expect='refuted')
 add('verif_order', 'selftest_sort_order_identity_must_fail', ['sort_order'], FM, 'N=3,m=2', **ST)
 add('verif_order', 'selftest_bubble_sort_one_swap_must_fail', ['bubble_sort'], FM, 'N=3', **ST)
 add('verif_segtree', 'selftest_min_index_highest_must_fail', ['MinSegTree::min_index'], FS, 'n=3', **ST)
 cfg = dict(package='oxidd-reorder',
            append=[{'to': FM, 'from': 'order_harness.rs'}, {'to': FS, 'from': 'segtree_harness.rs'}],
-           parallel=2,
+           parallel=4,
            assumptions=[
                "sort_order: request entries are existing levels (< num_levels) and duplicate-free (callers: var_to_level panics on unknown variables; duplicates are a documented panic); assume paired with cover",
                "the number of adjacent level swaps needed to reach a target order from the current order is the inversion count of the map current level -> target level (standard fact, used as the definition of the cost in (c))",
